@@ -560,6 +560,23 @@ namespace trompeloeil {
 
   class specialized;
 
+#ifdef ROLLBEAR_TROMPELOEIL_VERIF
+  // Verification hooks (off unless ROLLBEAR_TROMPELOEIL_VERIF is defined): one event per
+  // critical section, emitted after the state change and before the lock is released.
+  // `shared` tells whether the touched state is reachable by other threads.
+  namespace verif
+  {
+    using event_fn = void (*)(char const *name, void const *obj, long shared);
+    inline event_fn& event_sink() noexcept { static event_fn f = nullptr; return f; }
+    inline void event(char const *name, void const *obj, long shared) noexcept
+    {
+      if (auto f = event_sink()) f(name, obj, shared);
+    }
+  }
+#define TROMPELOEIL_VERIF_EVENT(name, obj, shared) ::trompeloeil::verif::event(name, obj, shared)
+#else
+#define TROMPELOEIL_VERIF_EVENT(name, obj, shared) static_cast<void>(0)
+#endif
 
 #ifndef TROMPELOEIL_CUSTOM_RECURSIVE_MUTEX
 
@@ -2008,6 +2025,7 @@ template <typename T>
         m.mock_destroyed();
         m.unlink();
       }
+      TROMPELOEIL_VERIF_EVENT("mock_dtor", this, 1);
     }
   };
 
@@ -2852,6 +2870,7 @@ template <typename T>
                     "IN_SEQUENCE and TIMES(0) does not make sense");
 
       m.matcher->sequences->set_limits(L, H);
+      TROMPELOEIL_VERIF_EVENT("limits", m.matcher.get(), Parent::sequence_set);
       return {std::move(m).matcher};
     }
   };
@@ -2875,6 +2894,7 @@ template <typename T>
       }
 
       m.matcher->sequences->set_limits(bounds.low, bounds.high);
+      TROMPELOEIL_VERIF_EVENT("limits", m.matcher.get(), Parent::sequence_set);
       return std::move(m).matcher;
     }
   };
@@ -2970,6 +2990,7 @@ template <typename T>
         report_missed("Unfulfilled expectation");
       }
       this->unlink();
+      TROMPELOEIL_VERIF_EVENT("exp_dtor", this, 1);
     }
 
     bool
@@ -2979,6 +3000,7 @@ template <typename T>
       override
     {
       auto lock = get_lock();
+      TROMPELOEIL_VERIF_EVENT("query", this, 1);
       return sequences->is_satisfied();
     }
 
@@ -2989,6 +3011,7 @@ template <typename T>
       override
     {
       auto lock = get_lock();
+      TROMPELOEIL_VERIF_EVENT("query", this, 1);
       return sequences->is_saturated();
     }
     bool
@@ -3086,6 +3109,7 @@ template <typename T>
           this->unlink();
           saturated_list.push_back(this);
         }
+        TROMPELOEIL_VERIF_EVENT("handled", this, 1);
       }
       send_ok_report<specialized>(name);
       for (auto& a : actions) a.action(params);
@@ -3260,6 +3284,7 @@ template <typename T>
     {
       auto lock = get_lock();
       m.matcher->hook_last(obj.trompeloeil_matcher_list(static_cast<Tag*>(nullptr)));
+      TROMPELOEIL_VERIF_EVENT("hook", m.matcher.get(), 1);
 
       return std::move(m).matcher;
     }
@@ -3379,6 +3404,7 @@ template <typename T>
     call_params_type_t<void(P...)> param_value(std::forward<P>(p)...);
 
     auto i = find(e.active, param_value);
+    TROMPELOEIL_VERIF_EVENT("call", &e, 1);
     if (!i)
     {
       report_mismatch(e.active,
